@@ -176,8 +176,13 @@ def exec_producer_path(case):
         if case.get("shuffle", True):
             rs.shuffle(parts)
         producer._metadata.update_metadata(MetadataResponse_v0([(i, "127.0.0.1", 9092 + i) for i in nodes], [(0, "t", parts)]))
-        if set(producer._metadata.partitions_for_topic("t")) != set(range(n)):
-            raise RuntimeError("harness: metadata snapshot not as constructed")
+        got_parts = producer._metadata.partitions_for_topic("t")
+        if got_parts is None or set(got_parts) != set(range(n)):
+            # the partition count the hash is reduced by must be the topic's, whatever leaders exist
+            out.fail("java_equal", "producer_path_partition_set_depends_on_available",
+                     {"n": n, "unavailable": sorted(unavailable), "partitions_for_topic": sorted(got_parts or [])})
+            producer._closed = True
+            return
         random.seed(case["rng_seed"])
         for key in case["keys"]:
             want = java_partition(key, n)
